@@ -15,7 +15,7 @@ TOL = 2000  # microseconds: the property's edge tolerance ("about 2 ms")
 U_MAX = ST.T_MAX_MS * 1000
 
 
-def h_window(x, bk, n, has_start, has_end, clips=False, via_api=False):
+def h_window(x, bk, n, has_start, has_end, clips=False, via_api=False, rewrite=False):
     A = ST.sym_rows(x, "a", n)
     B = ST.sym_rows(x, "b", 1)
     ST.distinct(x, [r.id for r in A + B])
@@ -37,70 +37,83 @@ def h_window(x, bk, n, has_start, has_end, clips=False, via_api=False):
         end = x.dt_us(we, we_off, False) if has_end else None
         lim = x.zint("limit", -2, n + 1)
         b = ds["A"]
-        # record what reaches the backend (window rounding in Bucket.get)
-        seen = []
-        st = ds.storage_strategy
-        orig = st.get_events
 
-        def rec(bucket_id, limit, starttime=None, endtime=None):
-            seen.append((starttime, endtime))
-            return orig(bucket_id, limit, starttime, endtime)
+        def reads(sfx):
+            # record what reaches the backend (window rounding in Bucket.get)
+            seen = []
+            st = ds.storage_strategy
+            orig = st.get_events
 
-        st.get_events = rec
-        full = b.get(-1, start, end)
-        limited = b.get(x.wrap(lim), start, end)
-        st.get_events = orig
-        count = b.get_eventcount(start, end)
-        obl = []
-        # window rounding
-        if seen:
-            s2, e2 = seen[0]
-            if has_start:
-                obl.append(("start-edge-floored-to-ms", S.dt_us(s2) == ws - ws % 1000))
-            if has_end:
-                obl.append(("end-edge-pushed-to-next-ms", And(S.dt_us(e2) > we, S.dt_us(e2) <= we + 1000, S.dt_us(e2) % 1000 == 0)))
+            def rec(bucket_id, limit, starttime=None, endtime=None):
+                seen.append((starttime, endtime))
+                return orig(bucket_id, limit, starttime, endtime)
 
-        def must(r):
-            return And((r.end >= ws + TOL) if has_start else True, (r.start <= we - TOL) if has_end else True)
+            st.get_events = rec
+            full = b.get(-1, start, end)
+            limited = b.get(x.wrap(lim), start, end)
+            st.get_events = orig
+            count = b.get_eventcount(start, end)
+            obl = []
+            # window rounding
+            if seen:
+                s2, e2 = seen[0]
+                if has_start:
+                    obl.append(("start-edge-floored-to-ms", S.dt_us(s2) == ws - ws % 1000))
+                if has_end:
+                    obl.append(("end-edge-pushed-to-next-ms", And(S.dt_us(e2) > we, S.dt_us(e2) <= we + 1000, S.dt_us(e2) % 1000 == 0)))
 
-        def may(r):
-            return And((r.end >= ws - TOL) if has_start else True, (r.start <= we + TOL) if has_end else True)
+            def must(r):
+                return And((r.end >= ws + TOL) if has_start else True, (r.start <= we - TOL) if has_end else True)
 
-        got = [row_of_event(e) for e in full]
-        for i, r in enumerate(A):
-            cnt = Sum([If(g.id == r.id, 1, 0) for g in got])
-            obl.append(("must-events-returned-once-%d" % i, Implies(must(r), cnt == 1)))
-            obl.append(("outside-events-not-returned-%d" % i, Implies(Not(may(r)), cnt == 0)))
-            obl.append(("no-duplicates-%d" % i, cnt <= 1))
-        obl.append(("only-events-of-this-bucket", And([Or([g.id == r.id for r in A]) for g in got])))
-        obl.append(("newest-first", ST.sorted_desc(got)))
-        if not clips:
-            obl.append(("returned-events-equal-stored", And([Or([g.same(r) for r in A]) for g in got])))
-        else:
-            for g in got:
-                conds = []
-                for r in A:
-                    lo = If(r.start >= ws, r.start, ws) if has_start else r.start
-                    hi = If(r.end <= we, r.end, we) if has_end else r.end
-                    conds.append(And(g.id == r.id, g.tag == r.tag, g.start >= r.start, g.end <= r.end, g.start - lo <= TOL, lo - g.start <= TOL, g.end - hi <= TOL, hi - g.end <= TOL))
-                obl.append(("clipped-event-is-stored-event-cut-to-window", Or(conds)))
-        # limit
-        lg = [row_of_event(e) for e in limited]
-        k = len(lg)
-        obl.append(("limit-0-none", Implies(lim == 0, k == 0)))
-        obl.append(("negative-limit-all", Implies(lim < 0, k == len(got))))
-        obl.append(("positive-limit-keeps-min(n,len)", Implies(lim > 0, k == If(lim <= len(got), lim, len(got)))))
-        if k <= len(got):
-            obl.append(("limit-keeps-the-newest-prefix", And([lg[i].start == got[i].start for i in range(k)])))
-        else:
-            obl.append(("limit-keeps-the-newest-prefix", False))
-        # count
-        nmust = Sum([If(must(r), 1, 0) for r in A])
-        nmay = Sum([If(may(r), 1, 0) for r in A])
-        cz = C.zv(count)
-        obl.append(("count-at-least-must", cz >= nmust))
-        obl.append(("count-at-most-may", cz <= nmay))
-        return obl, [len(got), k, cz]
+            def may(r):
+                return And((r.end >= ws - TOL) if has_start else True, (r.start <= we + TOL) if has_end else True)
+
+            got = [row_of_event(e) for e in full]
+            for i, r in enumerate(A):
+                cnt = Sum([If(g.id == r.id, 1, 0) for g in got])
+                obl.append(("must-events-returned-once-%d" % i, Implies(must(r), cnt == 1)))
+                obl.append(("outside-events-not-returned-%d" % i, Implies(Not(may(r)), cnt == 0)))
+                obl.append(("no-duplicates-%d" % i, cnt <= 1))
+            obl.append(("only-events-of-this-bucket", And([Or([g.id == r.id for r in A]) for g in got])))
+            obl.append(("newest-first", ST.sorted_desc(got)))
+            if not clips:
+                obl.append(("returned-events-equal-stored", And([Or([g.same(r) for r in A]) for g in got])))
+            else:
+                for g in got:
+                    conds = []
+                    for r in A:
+                        lo = If(r.start >= ws, r.start, ws) if has_start else r.start
+                        hi = If(r.end <= we, r.end, we) if has_end else r.end
+                        conds.append(And(g.id == r.id, g.tag == r.tag, g.start >= r.start, g.end <= r.end, g.start - lo <= TOL, lo - g.start <= TOL, g.end - hi <= TOL, hi - g.end <= TOL))
+                    obl.append(("clipped-event-is-stored-event-cut-to-window", Or(conds)))
+            # limit
+            lg = [row_of_event(e) for e in limited]
+            k = len(lg)
+            obl.append(("limit-0-none", Implies(lim == 0, k == 0)))
+            obl.append(("negative-limit-all", Implies(lim < 0, k == len(got))))
+            obl.append(("positive-limit-keeps-min(n,len)", Implies(lim > 0, k == If(lim <= len(got), lim, len(got)))))
+            if k <= len(got):
+                obl.append(("limit-keeps-the-newest-prefix", And([lg[i].start == got[i].start for i in range(k)])))
+            else:
+                obl.append(("limit-keeps-the-newest-prefix", False))
+            # count
+            nmust = Sum([If(must(r), 1, 0) for r in A])
+            nmay = Sum([If(may(r), 1, 0) for r in A])
+            cz = C.zv(count)
+            obl.append(("count-at-least-must", cz >= nmust))
+            obl.append(("count-at-most-may", cz <= nmay))
+            return [(nm + sfx, o) for nm, o in obl], [len(got), k, cz]
+
+        obl, obs = reads("")
+        if rewrite:
+            # one stored event is rewritten in place (same id, new instant and length), then the same window is
+            # read again through the same Bucket object: the reads must reflect the store as it is now
+            nw = ST.sym_rows(x, "w", 1, ids=False)[0]
+            b.replace(x.wrap(A[0].id), ST.event_of_row(x, nw))
+            A[0] = Row(A[0].id, nw.start, nw.dur, nw.tag)
+            obl2, obs2 = reads("-after-rewrite")
+            obl, obs = obl + obl2, obs + obs2
+        return obl, obs
     finally:
         be.close()
 
@@ -122,6 +135,9 @@ def harnesses(tier):
                     continue
                 hs.append((Harness(PROP, "%s-n%d-%s%s" % (bk, n, "S" if hs_ else "-", "E" if he_ else "-"), h_window, dict(bk=bk, n=n, has_start=hs_, has_end=he_, clips=(bk == "peewee")),
                                    "%s backend: windowed get / limited get / eventcount over %d stored events (window start %s, end %s)" % (bk, n, "given" if hs_ else "absent", "given" if he_ else "absent"), split_depth=7), 3600))
+    for bk in ["memory", "sqlite"]:  # (peewee: the doubled clipping obligations exceed z3's per-query limit — not claimed)
+        hs.append((Harness(PROP, "%s-n1-SE-reread-after-rewrite" % bk, h_window, dict(bk=bk, n=1, has_start=True, has_end=True, clips=(bk == "peewee"), rewrite=True),
+                           "%s backend: windowed get / eventcount, then the stored event is replaced and the same window is read again through the same Bucket object" % bk, split_depth=7), 1800))
     for bk in ["memory", "sqlite", "peewee"]:
         hs.append((Harness(PROP, "%s-n1-SE-written-through-api" % bk, h_window, dict(bk=bk, n=1, has_start=True, has_end=True, clips=(bk == "peewee"), via_api=True),
                            "%s backend: one event inserted through the API (durations up to 24 h inclusive), then windowed get / eventcount" % bk, split_depth=7), 1800))
